@@ -145,3 +145,72 @@ Definition plain_view (t : T.tree) : view :=
   | T.EZero => Some (mode, T.EZero, Some (C.TNum 0))
   | k => omap (fun e => (mode, k, Some e)) (forget (T.get path t))
   end.
+
+Ltac cb := cbn -[Z.add Z.lor].
+
+Ltac pct_side :=
+  simpl in *;
+  repeat match goal with P : _ || _ = false |- _ => apply orb_false_iff in P; destruct P end;
+  try assumption.
+
+Ltac use_regs :=
+  repeat match goal with
+  | E : forget ?x = Some ?y |- context[C.paren_reg ?y] =>
+      rewrite (paren_reg_forget x y E) by pct_side
+  | E : forget ?x = Some ?y |- context[C.try_reg ?y] =>
+      rewrite (regp_forget x y E) by (apply has_percent_is; pct_side)
+  end.
+
+Ltac rw_forget :=
+  unfold obind, omap, omap2;
+  repeat match goal with E : ?x = _ |- context[match ?x with _ => _ end] => rewrite E end.
+
+Ltac dreg :=
+  match goal with
+  | |- context[T.regp ?x] => destruct (T.regp x) eqn:?
+  | |- context[T.paren_reg ?x] => destruct (T.paren_reg x) eqn:?
+  end.
+
+Ltac fin_reg :=
+  let RN := fresh "RN" in
+  match goal with
+  | E : T.regp _ = Some ?r |- _ => destruct (regp_name _ _ E) as [? RN]
+  | E : T.paren_reg _ = Some ?r |- _ => destruct (paren_reg_name _ _ E) as [? RN]
+  end;
+  unfold cl_view, C.field_of; cb;
+  rewrite (reg_lor _ _ _ RN) by (simpl; auto 12); reflexivity.
+
+Ltac deqb :=
+  match goal with
+  | |- context[String.eqb ?b "("] => destruct (String.eqb b "(") eqn:?
+  end.
+Ltac rw_eqb := repeat match goal with E : String.eqb ?b "(" = _ |- context[String.eqb ?b "("] => rewrite E end.
+Ltac unf := unfold C.branches, C.b_reg, C.b_regdef, C.b_legacy, C.b_autoinc, C.b_autoincdef, C.b_autodec,
+  C.b_autodecdef, C.b_indexdef, C.b_index, C.b_implicit, C.b_imm, C.b_abs, C.b_reldef, C.with_reg.
+Ltac go := unf; cb; rw_eqb; use_regs; repeat (first [dreg | deqb]; cb; rw_eqb; use_regs); rw_forget; try reflexivity; try fin_reg.
+
+(* top constructor Num / Chr / Sym / Dot / Paren *)
+Definition simple_top (t : T.tree) : bool :=
+  match t with
+  | T.Num _ _ _ _ _ | T.Chr _ _ | T.Sym _ _ | T.Dot | T.Paren _ _ => true
+  | _ => false
+  end.
+
+Lemma classify_agrees_partial : forall t t', forget t = Some t' -> T.has_percent t = false ->
+  simple_top t = true -> tc_view t = cl_view_res (C.classify t').
+Proof.
+  intros t t' H P S.
+  destruct t; try discriminate S; inv_forget H;
+    unfold cl_view_res, C.classify; cbn [C.hoist];
+    change (tc_view ?x) with (plain_view x); unfold plain_view, T.plain_plan, C.cascade.
+  - go.
+  - go.
+  - assert (F' := F). apply String.eqb_eq in F'. destruct nec_label.
+    + cbn. rw_forget. reflexivity.
+    + cbn. unfold C.b_reg, C.with_reg, C.try_reg. rewrite F'. change (C.reg_of_name name) with (T.reg_of_name name).
+      cbn [T.regp]. destruct (T.reg_of_name name) eqn:RN.
+      * unfold cl_view, C.field_of; cbn. reflexivity.
+      * cbn. rw_forget. reflexivity.
+  - go.
+  - go.
+Qed.
